@@ -139,6 +139,13 @@ fn parse_opts(s: &str) -> Opts {
             "sc" => o.sample_count = Some(v.parse().unwrap()),
             "ss" => o.sample_size = Some(v.parse().unwrap()),
             "th" => o.threads = Some(v.split(',').filter(|x| !x.is_empty()).map(|x| x.parse().unwrap()).collect()),
+            // the conversions the attribute macro applies to non-literal `threads = ...` values
+            "ths" => o.threads = Some(divan::__private::IntoThreads::<0>::into_threads(v.parse::<usize>().unwrap()).into_owned()),
+            "thb" => o.threads = Some(divan::__private::IntoThreads::<0>::into_threads(v == "1").into_owned()),
+            "thi" => {
+                let list: Vec<usize> = v.split(',').filter(|x| !x.is_empty()).map(|x| x.parse().unwrap()).collect();
+                o.threads = Some(divan::__private::IntoThreads::<1>::into_threads(list).into_owned())
+            }
             "mt" => o.min_ns = Some(v.parse().unwrap()),
             "xt" => o.max_ns = Some(v.parse().unwrap()),
             "sk" => o.skip_ext = Some(v == "1"),
